@@ -349,6 +349,9 @@ func (t *T) zeroValue(ty types.Type) (string, error) {
 		case types.Int:
 			return "(0 : Int)", nil
 		}
+	case *types.Pointer:
+		// pointers are values in the subset; nil (which Go would panic on when it is dereferenced) is the zero value
+		return t.zeroValue(u.Elem())
 	case *types.Slice:
 		lt, err := t.leanType(u)
 		if err != nil {
